@@ -31,12 +31,15 @@ claimed["C19"] = ("other", "Non-interference by symbolic execution with an acces
 BMC_NOTE = ("Trusted: go/ssa construction and the executor that extracts the thread event trees from the real code, the "
             "sequentially consistent semantics of mutex / buffered channel / len / close / WaitGroup in the BMC back end (about 150 lines), "
             "the abstract-sequence summary of the value list behind the queue (its behaviour is property C01), the Lipton reduction "
-            "(lock-protected regions, constant loads), cvc5 / z3. Complete for every schedule of the listed programs (unrolling depth "
-            "established by a completeness-threshold query); nothing is claimed for larger programs or relaxed memory. Witnesses are "
-            "replayed natively under the race detector with randomised pauses (probabilistic reproduction).")
-claimed["C04"] = ("model_checking", "Bounded model checking with a symbolic schedule of the real queue code: per-thread event trees are extracted from the SSA by symbolic execution (trace mode), unrolled as a transition system with one schedule variable per step; safety (history assertions for linearizable FIFO, exactly-once, back-pressure, observers, no panic), deadlock and data-race queries over all schedules of small producer/consumer/closer/observer programs.", "SSA -> thread event trees (symbolic execution) -> BMC with symbolic schedule (cvc5/z3)", "4", BMC_NOTE)
-claimed["C05"] = ("model_checking", "Deadlock / lost wake-up query of the same BMC over all schedules of producer/consumer/closer programs (well-formed programs terminate with every value consumed), plus bounded symbolic execution of every queue constructor form for 0..64 initial values (a send on the constructor's own full queue is a reported deadlock).", "BMC with symbolic schedule (cvc5/z3) + symbolic execution of the constructors", "4", BMC_NOTE)
-claimed["C06"] = ("model_checking", "BMC with a symbolic schedule of Fork, Split and Join: helper closures extracted from the SSA of queue.go with feeder, readers and a wait-group waiter; asserts per-output order, round-robin partition, Split-Join identity, closure of every output, wait group back to zero, no deadlock / panic / race over all schedules of the listed small programs.", "SSA -> thread event trees (symbolic execution) -> BMC with symbolic schedule (cvc5/z3)", "4", BMC_NOTE)
+            "(lock-protected regions, constant loads), the partial-order reduction to canonical schedules, z3 (QF_BV, bit-blasting). Receive "
+            "branches pruned as infeasible are checked assumptions (reaching one is reported). Complete for every schedule of the programs "
+            "listed as decided (unrolled to the static step bound or to a completeness threshold established by a query); programs run in "
+            "search mode in the thorough tier are bug hunting only and nothing is claimed for them, nor for larger programs or relaxed memory. "
+            "Witnesses are replayed natively under the race detector with randomised pauses (probabilistic reproduction; a witness that does "
+            "not reproduce makes the check inconclusive, exit 2).")
+claimed["C04"] = ("model_checking", "Bounded model checking with a symbolic schedule of the real queue code: per-thread event trees are extracted from the SSA by symbolic execution (trace mode), unrolled as a transition system with one schedule variable per step; safety (history assertions for linearizable FIFO, exactly-once, back-pressure, observers, no panic), deadlock and data-race queries over all schedules of small producer/consumer/closer/observer programs.", "SSA -> thread event trees (symbolic execution) -> BMC with symbolic schedule (z3, QF_BV)", "4", BMC_NOTE)
+claimed["C05"] = ("model_checking", "Deadlock / lost wake-up query of the same BMC over all schedules of producer/consumer/closer programs (well-formed programs terminate with every value consumed), plus bounded symbolic execution of every queue constructor form for 0..64 initial values (a send on the constructor's own full queue is a reported deadlock).", "BMC with symbolic schedule (z3, QF_BV) + symbolic execution of the constructors", "4", BMC_NOTE)
+claimed["C06"] = ("model_checking", "BMC with a symbolic schedule of Fork, Split and Join: helper closures extracted from the SSA of queue.go with feeder, readers and a wait-group waiter; asserts per-output order, round-robin partition, Split-Join identity, closure of every output, wait group back to zero, no deadlock / panic / race over all schedules of the listed small programs.", "SSA -> thread event trees (symbolic execution) -> BMC with symbolic schedule (z3, QF_BV)", "4", BMC_NOTE)
 reasons = {}
 
 checks = []
